@@ -427,23 +427,6 @@ func (d *driver) stageOfflineRevisions() {
 			"what": "a caching build after each publication, then an offline build, compared with the online build without cache"}
 		picked := d.emitOffline(cache, d.w.indexURL(), "APKINDEX.tar.gz", "offline-revisions", desc, d.w.classifyIndex)
 		d.emitTimes(cache, "index-times/three-publications", seq, map[string]any{"exp": "index-times", "publications": p})
-		if len(p) == 3 && p[0] == 0 {
-			// ... a roll-back to a revision that is cached already downloads nothing and changes no time; then an
-			// update that lands between the HEAD and the GET of one build (HEAD: the old etag, GET: the new one)
-			d.w.setRev(p[0])
-			d.w.run(runSpec{Cache: cache, Pkgs: pk})
-			seq = append(seq, [2]string{d.w.revs[p[0]].b32, d.w.revs[p[0]].b32})
-			d.emitTimes(cache, "index-times/roll-back", seq, map[string]any{"exp": "index-times", "publications": p, "then": "roll-back to the first"})
-			c2 := d.newCache()
-			d.w.setRev(p[0])
-			d.w.flipAfterHead(p[1])
-			d.w.run(runSpec{Cache: c2, Pkgs: pk})
-			time.Sleep(12 * time.Millisecond)
-			d.w.setRev(p[0])
-			d.w.run(runSpec{Cache: c2, Pkgs: pk})
-			d.emitTimes(c2, "index-times/update-between-head-and-get", [][2]string{{d.w.revs[p[0]].b32, d.w.revs[p[1]].b32}, {d.w.revs[p[0]].b32, d.w.revs[p[0]].b32}},
-				map[string]any{"exp": "index-times", "what": "first build: HEAD old, GET new; second build: old"})
-		}
 		o := d.w.run(runSpec{Cache: cache, Pkgs: pk, Offline: true})
 		want := d.ref(last, pk)
 		out := "error"
@@ -467,6 +450,23 @@ func (d *driver) stageOfflineRevisions() {
 				"what": "three publications, a caching build after each, then an offline build: not the image of the revision downloaded last (= the online build without cache)"})
 		}
 		d.count("offline_after_three_publications", out)
+		if len(p) == 3 && p[0] == 0 {
+			// ... a roll-back to a revision that is cached already downloads nothing and changes no time; then an
+			// update that lands between the HEAD and the GET of one build (HEAD: the old etag, GET: the new one)
+			d.w.setRev(p[0])
+			d.w.run(runSpec{Cache: cache, Pkgs: pk})
+			seq = append(seq, [2]string{d.w.revs[p[0]].b32, d.w.revs[p[0]].b32})
+			d.emitTimes(cache, "index-times/roll-back", seq, map[string]any{"exp": "index-times", "publications": p, "then": "roll-back to the first"})
+			c2 := d.newCache()
+			d.w.setRev(p[0])
+			d.w.flipAfterHead(p[1])
+			d.w.run(runSpec{Cache: c2, Pkgs: pk})
+			time.Sleep(12 * time.Millisecond)
+			d.w.setRev(p[0])
+			d.w.run(runSpec{Cache: c2, Pkgs: pk})
+			d.emitTimes(c2, "index-times/update-between-head-and-get", [][2]string{{d.w.revs[p[0]].b32, d.w.revs[p[1]].b32}, {d.w.revs[p[0]].b32, d.w.revs[p[0]].b32}},
+				map[string]any{"exp": "index-times", "what": "first build: HEAD old, GET new; second build: old"})
+		}
 	}
 }
 
